@@ -497,7 +497,25 @@ def C06(infos: List[EnumInfo], ctx: dict):
             out.append(Violation("C06", "every other value yields None", "C06:wild-not-none", "wildcard arm is not None", where(info, "FromRepr")))
         if len(samples) < 5:
             samples.append({"enum": info.where(), "repr": es.repr_int, "generated": sorted(got.items())[:8], "rustc": sorted(exp.items())[:8]})
-    cov = {"programs": programs, "disagreements_checked": len(out), "samples": samples, "evaluations": rows, "distinct_nontrivial": len(classes), "skipped": skipped,
+    # W: from_repr is callable in const context when no variant carries data (negative twin: with data it is not const)
+    import witness
+    from common import ToolError
+    pre = "#![allow(dead_code)]\nuse strum::FromRepr;\n"
+    targets = {
+        "pos_unit": pre + "#[derive(FromRepr, Debug, PartialEq)]\n#[repr(u8)]\nenum E { A = 1, B, #[strum(disabled)] C, D = 9 }\nconst X: Option<E> = E::from_repr(2);\nconst Y: Option<E> = E::from_repr(3);\nfn main() { let _ = (X, Y); }\n",
+        "pos_unit_generic_free": pre + "#[derive(FromRepr, Debug, PartialEq)]\nenum E { A, B }\nconst fn f(d: usize) -> bool { E::from_repr(d).is_some() }\nfn main() { let _ = f(1); }\n",
+        "neg_data": pre + "#[derive(FromRepr, Debug, PartialEq)]\nenum E { A, B(u8) }\nconst X: Option<E> = E::from_repr(1);\nfn main() {}\n",
+    }
+    diags, built = witness.check_targets("c06const", targets)
+    for name in sorted(targets):
+        errs = diags.get(name, [])
+        rows += 1
+        if name.startswith("pos_") and errs:
+            out.append(Violation("C06", "W: from_repr is callable in const context when no variant carries data", "C06:const-context",
+                                 "const evaluation of from_repr does not compile: %s" % errs[0].get("message", "")[:200], {"witness": name, "source": targets[name], "generator_fn": GEN_FN["FromRepr"]}))
+        if name.startswith("neg_") and not errs:
+            raise ToolError("negative twin %s unexpectedly compiles (the const-context witness is not sensitive)" % name)
+    cov = {"programs": programs, "disagreements_checked": len(out), "samples": samples, "evaluations": rows, "distinct_nontrivial": len(classes), "skipped": skipped, "const_context_witnesses": len(targets),
            "rule": "arms `v if v == K_i => Some(c_i)` with K_i evaluated by rustc (const_eval) form the map {value -> variant}; it must equal {adt_def.discriminant(V) -> V | V enabled}; parameter type == repr integer type; const when field-less; payload defaulted; wildcard None. Builtin integer == decides every d of the type."}
     return out, cov
 
@@ -1095,7 +1113,8 @@ def C14(infos: List[EnumInfo], ctx: dict):
         for fn, specf, label in (("get_message", es.message, "message"), ("get_detailed_message", es.detailed, "detailed"), ("get_documentation", es.documentation, "docs")):
             vm = mt.get(fn)
             if vm is None:
-                # a default method of the trait: get_documentation/get_detailed default to None / message
+                out.append(Violation("C14", "all four lookups are generated for the enum", "C14:lookup-not-generated:%s" % fn,
+                                     "%s is not generated for %s (a trait default would decide its result)" % (fn, info.name), where(info, D)))
                 continue
             if not vm.scrut_ok:
                 out.append(Violation("C14", "lookup matches on the receiver", "C14:scrutinee", "%s does not match on self" % fn, where(info, D)))
